@@ -772,7 +772,7 @@ Section Timed.
     - congruence.
   Qed.
 
-  Theorem doc_timed_between l r tl tr dul dil dur dir from to tt lv rv lw :
+  Theorem doc_timed_between_marked l r tl tr dul dil dur dir from to tt lv rv lw :
     In l (d_matrices d) -> In r (d_matrices d) ->
     pm_profile l = Some (dv_profile v) -> pm_profile r = Some (dv_profile v) ->
     pm_ts l = Some tl -> pm_ts r = Some tr ->
@@ -784,7 +784,7 @@ Section Timed.
     nth_error dil (from * psize prov + to) = Some lw ->
     exists k, vehicle_profile (prof_names d) (dv_profile v) (dv_scale v) = Some (k, dscale v) /\
               duration_tt prov (doc_fallback d) k (dscale v) from to tt
-                = Val (interp (tt_time tt) (inject_Z tl) (inject_Z tr) lv rv * dscale v)%Q /\
+                = Val (interp_marked (tt_time tt) (inject_Z tl) (inject_Z tr) lv rv * dscale v)%Q /\
               distance_tt prov (doc_fallback d) k from to tt = Val lw.
   Proof.
     intros Hl Hr Hnl Hnr Htl Htr Hlt Hrt Hadj Hdl Hdr Hlv Hrv Hlw.
@@ -798,7 +798,7 @@ Section Timed.
     assert (ts_of ml = inject_Z tl) as El by (unfold ts_of; rewrite Hlts, Htl; reflexivity).
     assert (ts_of mr = inject_Z tr) as Er by (unfold ts_of; rewrite Hrts, Htr; reflexivity).
     unfold duration_tt, distance_tt. rewrite <- Hil, <- El, <- Er.
-    apply (aware_between data prov (doc_fallback d) ml mr); try assumption.
+    apply (aware_between_marked data prov (doc_fallback d) ml mr); try assumption.
     - unfold has_ts. rewrite Hlts, Htl. reflexivity.
     - congruence.
     - rewrite Hil, (doc_group_keys d data k (dv_profile v) Hc Hknown Hk). exact Hnd.
@@ -807,6 +807,50 @@ Section Timed.
     - intros y Hy Hiy. rewrite Hil in Hiy.
       destruct (doc_member_back d data k (dv_profile v) y Hc Hknown Hk Hy Hiy) as [pmy [py [Hpmy [Hny Hry]]]].
       rewrite Hkl, Hkr, (conv_key _ _ _ _ Hry). apply Hadj; assumption.
+  Qed.
+
+  Theorem doc_timed_between l r tl tr dul dil dur dir from to tt lv rv lw :
+    In l (d_matrices d) -> In r (d_matrices d) ->
+    pm_profile l = Some (dv_profile v) -> pm_profile r = Some (dv_profile v) ->
+    pm_ts l = Some tl -> pm_ts r = Some tr ->
+    pm_key l < ztrunc (tt_time tt) -> ztrunc (tt_time tt) < pm_key r ->
+    (forall y, In y (d_matrices d) -> pm_profile y = Some (dv_profile v) -> ~ (pm_key l < pm_key y /\ pm_key y < pm_key r)) ->
+    pm_data2 l = inr (dul, dil) -> pm_data2 r = inr (dur, dir) ->
+    nth_error dul (from * psize prov + to) = Some lv ->
+    nth_error dur (from * psize prov + to) = Some rv ->
+    nth_error dil (from * psize prov + to) = Some lw ->
+    (0 <= lv)%Q -> (0 <= rv)%Q ->
+    exists k, vehicle_profile (prof_names d) (dv_profile v) (dv_scale v) = Some (k, dscale v) /\
+              duration_tt prov (doc_fallback d) k (dscale v) from to tt
+                = Val (interp (tt_time tt) (inject_Z tl) (inject_Z tr) lv rv * dscale v)%Q /\
+              distance_tt prov (doc_fallback d) k from to tt = Val lw.
+  Proof.
+    intros Hl Hr Hnl Hnr Htl Htr Hlt Hrt Hadj Hdl Hdr Hlv Hrv Hlw A B.
+    rewrite <- (interp_marked_nonneg (tt_time tt) (inject_Z tl) (inject_Z tr) lv rv A B).
+    exact (doc_timed_between_marked l r tl tr dul dil dur dir from to tt lv rv lw
+             Hl Hr Hnl Hnr Htl Htr Hlt Hrt Hadj Hdl Hdr Hlv Hrv Hlw).
+  Qed.
+
+  (* one of the two bracketing entries is the unreachable marker: duration and distance are those of the LEFT matrix *)
+  Theorem doc_timed_between_unreachable l r tl tr dul dil dur dir from to tt lv rv lw :
+    In l (d_matrices d) -> In r (d_matrices d) ->
+    pm_profile l = Some (dv_profile v) -> pm_profile r = Some (dv_profile v) ->
+    pm_ts l = Some tl -> pm_ts r = Some tr ->
+    pm_key l < ztrunc (tt_time tt) -> ztrunc (tt_time tt) < pm_key r ->
+    (forall y, In y (d_matrices d) -> pm_profile y = Some (dv_profile v) -> ~ (pm_key l < pm_key y /\ pm_key y < pm_key r)) ->
+    pm_data2 l = inr (dul, dil) -> pm_data2 r = inr (dur, dir) ->
+    nth_error dul (from * psize prov + to) = Some lv ->
+    nth_error dur (from * psize prov + to) = Some rv ->
+    nth_error dil (from * psize prov + to) = Some lw ->
+    (lv < 0)%Q \/ (rv < 0)%Q ->
+    exists k, vehicle_profile (prof_names d) (dv_profile v) (dv_scale v) = Some (k, dscale v) /\
+              duration_tt prov (doc_fallback d) k (dscale v) from to tt = Val (lv * dscale v)%Q /\
+              distance_tt prov (doc_fallback d) k from to tt = Val lw.
+  Proof.
+    intros Hl Hr Hnl Hnr Htl Htr Hlt Hrt Hadj Hdl Hdr Hlv Hrv Hlw A.
+    rewrite <- (interp_marked_neg (tt_time tt) (inject_Z tl) (inject_Z tr) lv rv A).
+    exact (doc_timed_between_marked l r tl tr dul dil dur dir from to tt lv rv lw
+             Hl Hr Hnl Hnr Htl Htr Hlt Hrt Hadj Hdl Hdr Hlv Hrv Hlw).
   Qed.
 End Timed.
 
@@ -817,6 +861,7 @@ Lemma pm_data2_unreachable pm codes du di k e :
 Proof.
   intros He Hd Hk Hpos. unfold pm_data2 in Hd. rewrite He in Hd.
   destruct (length codes <? length (pm_dists pm))%nat; [discriminate|].
+  destruct (negb _); [discriminate|].
   destruct (with_codes codes 0 (pm_times pm) (pm_dists pm)) as [[du' di']|] eqn:Ew; [|discriminate].
   inversion Hd; subst. destruct (with_codes_spec _ _ _ _ _ _ Ew k e Hk) as [A _]. exact (A Hpos).
 Qed.
@@ -828,6 +873,7 @@ Lemma pm_data2_reachable pm codes du di k e :
 Proof.
   intros He Hd Hk Hle. unfold pm_data2 in Hd. rewrite He in Hd.
   destruct (length codes <? length (pm_dists pm))%nat; [discriminate|].
+  destruct (negb _); [discriminate|].
   destruct (with_codes codes 0 (pm_times pm) (pm_dists pm)) as [[du' di']|] eqn:Ew; [|discriminate].
   inversion Hd; subst. destruct (with_codes_spec _ _ _ _ _ _ Ew k e Hk) as [_ B]. exact (B Hle).
 Qed.
@@ -847,6 +893,7 @@ Lemma pm_data2_codes_cover pm codes du di :
 Proof.
   intros He Hd. unfold pm_data2 in Hd. rewrite He in Hd.
   destruct (length codes <? length (pm_dists pm))%nat eqn:E; [discriminate|]. apply Nat.ltb_ge in E.
+  destruct (negb _); [discriminate|].
   destruct (with_codes codes 0 (pm_times pm) (pm_dists pm)) as [[du' di']|] eqn:Ew; [|discriminate].
   inversion Hd; subst. split; [exact E|].
   clear - Ew. revert du di Ew. generalize 0%nat as i. induction codes as [|c r IH]; intros i du di Ew; cbn [with_codes] in Ew.
@@ -857,6 +904,18 @@ Proof.
     + destruct (nth_error (pm_times pm) i); [|discriminate]. destruct (nth_error (pm_dists pm) i); [|discriminate].
       destruct (with_codes r (S i) _ _) as [[a b]|] eqn:Er; [|discriminate]. inversion Ew; subst.
       destruct (IH _ _ _ Er). cbn [length]. split; congruence.
+Qed.
+
+(* since repair 7d3c5fe: an accepted matrix with error codes has the three lengths equal *)
+Lemma pm_data2_codes_fit pm codes du di :
+  pm_err pm = Some codes -> pm_data2 pm = inr (du, di) ->
+  length codes = length (pm_dists pm) /\ length (pm_times pm) = length (pm_dists pm).
+Proof.
+  intros He Hd. unfold pm_data2 in Hd. rewrite He in Hd.
+  destruct (length codes <? length (pm_dists pm))%nat; [discriminate|].
+  destruct ((length codes =? length (pm_dists pm))%nat && (length (pm_times pm) =? length (pm_dists pm))%nat) eqn:E;
+    cbn [negb] in Hd; [|discriminate].
+  apply andb_true_iff in E. destruct E as [A B]. apply Nat.eqb_eq in A, B. split; assumption.
 Qed.
 
 (* untimed documents: an entry flagged unreachable surfaces as a negative duration AND a negative distance for every
@@ -912,12 +971,14 @@ Qed.
 Definition wm_codes9 := mkPM (Some 1%nat) None [0; 11; 12; 0] [0; 21; 22; 0] (Some [0; 0; 0; 0; 1; 1; 1; 1; 1]).
 Definition doc_codes9 := mkDoc [mkDP 1 None] [mkDV 1 None] wlocs [wm_codes9].
 
-Theorem doc_error_codes_resize_refuted :
+(* about the reader BEFORE repair 7d3c5fe (doc_read_prefix); the repaired reader rejects the document *)
+Theorem doc_error_codes_resize_prefix_refuted :
   exists d prov vs pm codes,
-    doc_read d = DOk prov vs /\ d_matrices d = [pm] /\ pm_err pm = Some codes /\
+    doc_read_prefix d = DOk prov vs /\ d_matrices d = [pm] /\ pm_err pm = Some codes /\
     length (pm_dists pm) = 4%nat /\ length codes = 9%nat /\ ci_len (d_locs d) = 2%nat /\ psize prov = 3%nat /\
     nth_error (pm_times pm) (1 * 2 + 0) = Some 12 /\
-    duration_tt prov (doc_fallback d) 0 1%Q 1 0 (TDeparture 0) = Val 0%Q.
+    duration_tt prov (doc_fallback d) 0 1%Q 1 0 (TDeparture 0) = Val 0%Q /\
+    doc_read d = DRejected DCodesLength.
 Proof.
   exists doc_codes9. eexists. eexists. exists wm_codes9. eexists.
   split; [vm_compute; reflexivity|]. repeat split; vm_compute; reflexivity.
@@ -929,22 +990,25 @@ Definition wm_t10 := mkPM (Some 1%nat) (Some 10) [0; 100; 12; 0] [0; 21; 22; 0] 
 Definition wm_t18 := mkPM (Some 1%nat) (Some 18) [0; 100; 12; 0] [0; 210; 220; 0] None.
 Definition doc_timed_unreachable := mkDoc [mkDP 1 None] [mkDV 1 None] wlocs [wm_t10; wm_t18].
 
-Theorem doc_timed_unreachable_negative_refuted :
+(* about the lookup BEFORE repair d8f731f (duration_prefix): the interpolant through the marker is non-negative while the
+   distance is the marker; the repaired lookup returns the left value -1 *)
+Theorem doc_timed_unreachable_negative_prefix_refuted :
   exists d prov vs l codes t q w,
     doc_read d = DOk prov vs /\ In l (d_matrices d) /\ pm_err l = Some codes /\ nth_error codes (0 * psize prov + 1) = Some 1 /\
     pm_ts l = Some 10 /\ (inject_Z 10 < t)%Q /\ (t < inject_Z 18)%Q /\
-    duration_tt prov (doc_fallback d) 0 1%Q 0 1 (TDeparture t) = Val q /\ (0 <= q)%Q /\
-    distance_tt prov (doc_fallback d) 0 0 1 (TDeparture t) = Val w /\ (w < 0)%Q.
+    duration_prefix prov (doc_fallback d) 0 1%Q 0 1 t = Val q /\ (0 <= q)%Q /\
+    distance_tt prov (doc_fallback d) 0 0 1 (TDeparture t) = Val w /\ (w < 0)%Q /\
+    duration_tt prov (doc_fallback d) 0 1%Q 0 1 (TDeparture t) = Val ((-1 # 1) * 1)%Q.
 Proof.
   exists doc_timed_unreachable. eexists. eexists. exists wm_t10. eexists. exists (14 # 1)%Q. eexists. eexists.
   split; [vm_compute; reflexivity|]. split; [left; reflexivity|]. split; [reflexivity|]. split; [reflexivity|].
   split; [reflexivity|]. split; [vm_compute; reflexivity|]. split; [vm_compute; reflexivity|].
   split; [vm_compute; reflexivity|]. split; [vm_compute; discriminate|]. split; [vm_compute; reflexivity|].
-  vm_compute. reflexivity.
+  split; vm_compute; reflexivity.
 Qed.
 
-(* what the code returns between a flagged and a reachable matrix, exactly *)
-Theorem doc_timed_unreachable_left_exact d prov vs v l r tl tr codes dul dil dur dir from to tt rv e :
+(* since repair d8f731f: strictly between two stamps an entry flagged by the LEFT matrix is negative, duration and distance *)
+Theorem doc_timed_unreachable_negative d prov vs v l r tl tr codes dul dil dur dir from to tt rv e :
   doc_read d = DOk prov vs -> names_known d -> In v (d_vehicles d) ->
   NoDup (map pm_key (filter (pnamed (dv_profile v)) (d_matrices d))) ->
   In l (d_matrices d) -> In r (d_matrices d) ->
@@ -954,20 +1018,21 @@ Theorem doc_timed_unreachable_left_exact d prov vs v l r tl tr codes dul dil dur
   (forall y, In y (d_matrices d) -> pm_profile y = Some (dv_profile v) -> ~ (pm_key l < pm_key y /\ pm_key y < pm_key r)) ->
   pm_err l = Some codes -> nth_error codes (from * psize prov + to) = Some e -> e > 0 ->
   pm_data2 l = inr (dul, dil) -> pm_data2 r = inr (dur, dir) ->
-  nth_error dur (from * psize prov + to) = Some rv ->
+  nth_error dur (from * psize prov + to) = Some rv -> (0 < dscale v)%Q ->
   exists k, vehicle_profile (prof_names d) (dv_profile v) (dv_scale v) = Some (k, dscale v) /\
-    duration_tt prov (doc_fallback d) k (dscale v) from to tt
-      = Val (interp (tt_time tt) (inject_Z tl) (inject_Z tr) (-1 # 1) rv * dscale v)%Q /\
+    duration_tt prov (doc_fallback d) k (dscale v) from to tt = Val ((-1 # 1) * dscale v)%Q /\
+    ((-1 # 1) * dscale v < 0)%Q /\
     distance_tt prov (doc_fallback d) k from to tt = Val (-1 # 1)%Q.
 Proof.
-  intros H Hkn Hv Hnd Hl Hr Hnl Hnr Htl Htr Hlt Hrt Hadj He Hk Hpos Hdl Hdr Hrv.
+  intros H Hkn Hv Hnd Hl Hr Hnl Hnr Htl Htr Hlt Hrt Hadj He Hk Hpos Hdl Hdr Hrv Hs.
   destruct (pm_data2_unreachable _ _ _ _ _ _ He Hdl Hk Hpos) as [A B].
-  exact (doc_timed_between d prov vs v H Hkn Hv Hnd l r tl tr dul dil dur dir from to tt _ _ _
-           Hl Hr Hnl Hnr Htl Htr Hlt Hrt Hadj Hdl Hdr A Hrv B).
+  destruct (doc_timed_between_unreachable d prov vs v H Hkn Hv Hnd l r tl tr dul dil dur dir from to tt _ _ _
+              Hl Hr Hnl Hnr Htl Htr Hlt Hrt Hadj Hdl Hdr A Hrv B) as [k [Hp [Hdu Hdi]]]; [left; reflexivity|].
+  exists k. split; [exact Hp|]. split; [exact Hdu|]. split; [nra|exact Hdi].
 Qed.
 
-(* both bracketing matrices flag the entry: negative duration and distance *)
-Theorem doc_timed_unreachable_both_negative d prov vs v l r tl tr cl cr dul dil dur dir from to tt el er :
+(* ... and when only the RIGHT matrix flags it, the reachable left entry is returned unchanged (not a value falling towards -1) *)
+Theorem doc_timed_right_unreachable_keeps_left d prov vs v l r tl tr codes dul dil dur dir from to tt lv lw e :
   doc_read d = DOk prov vs -> names_known d -> In v (d_vehicles d) ->
   NoDup (map pm_key (filter (pnamed (dv_profile v)) (d_matrices d))) ->
   In l (d_matrices d) -> In r (d_matrices d) ->
@@ -975,26 +1040,17 @@ Theorem doc_timed_unreachable_both_negative d prov vs v l r tl tr cl cr dul dil 
   pm_ts l = Some tl -> pm_ts r = Some tr ->
   pm_key l < ztrunc (tt_time tt) -> ztrunc (tt_time tt) < pm_key r ->
   (forall y, In y (d_matrices d) -> pm_profile y = Some (dv_profile v) -> ~ (pm_key l < pm_key y /\ pm_key y < pm_key r)) ->
-  pm_err l = Some cl -> nth_error cl (from * psize prov + to) = Some el -> el > 0 ->
-  pm_err r = Some cr -> nth_error cr (from * psize prov + to) = Some er -> er > 0 ->
-  pm_data2 l = inr (dul, dil) -> pm_data2 r = inr (dur, dir) -> (0 < dscale v)%Q ->
-  exists k q, vehicle_profile (prof_names d) (dv_profile v) (dv_scale v) = Some (k, dscale v) /\
-    duration_tt prov (doc_fallback d) k (dscale v) from to tt = Val q /\ (q < 0)%Q /\
-    distance_tt prov (doc_fallback d) k from to tt = Val (-1 # 1)%Q.
+  pm_err r = Some codes -> nth_error codes (from * psize prov + to) = Some e -> e > 0 ->
+  pm_data2 l = inr (dul, dil) -> pm_data2 r = inr (dur, dir) ->
+  nth_error dul (from * psize prov + to) = Some lv -> nth_error dil (from * psize prov + to) = Some lw ->
+  exists k, vehicle_profile (prof_names d) (dv_profile v) (dv_scale v) = Some (k, dscale v) /\
+    duration_tt prov (doc_fallback d) k (dscale v) from to tt = Val (lv * dscale v)%Q /\
+    distance_tt prov (doc_fallback d) k from to tt = Val lw.
 Proof.
-  intros H Hkn Hv Hnd Hl Hr Hnl Hnr Htl Htr Hlt Hrt Hadj Hel Hkl Hpl Her Hkr Hpr Hdl Hdr Hs.
-  destruct (pm_data2_unreachable _ _ _ _ _ _ Hel Hdl Hkl Hpl) as [A B].
-  destruct (pm_data2_unreachable _ _ _ _ _ _ Her Hdr Hkr Hpr) as [A' B'].
-  destruct (doc_timed_between d prov vs v H Hkn Hv Hnd l r tl tr dul dil dur dir from to tt _ _ _
-              Hl Hr Hnl Hnr Htl Htr Hlt Hrt Hadj Hdl Hdr A A' B) as [k [Hp [Hdu Hdi]]].
-  exists k. eexists. split; [exact Hp|]. split; [exact Hdu|]. split; [|exact Hdi].
-  assert (pm_key l < pm_key r) as Hlr by lia.
-  assert (~ (inject_Z tr - inject_Z tl == 0)%Q) as Hne.
-  { intros E. unfold pm_key in Hlr. rewrite Htl, Htr in Hlr.
-    assert (inject_Z tl == inject_Z tr)%Q as E2 by lra.
-    assert (ztrunc (inject_Z tl) = ztrunc (inject_Z tr)); [|lia].
-    apply Z.le_antisymm; apply ztrunc_mono; lra. }
-  rewrite (interp_same _ _ _ _ Hne). nra.
+  intros H Hkn Hv Hnd Hl Hr Hnl Hnr Htl Htr Hlt Hrt Hadj He Hk Hpos Hdl Hdr Hlv Hlw.
+  destruct (pm_data2_unreachable _ _ _ _ _ _ He Hdr Hk Hpos) as [A B].
+  apply (doc_timed_between_unreachable d prov vs v H Hkn Hv Hnd l r tl tr dul dil dur dir from to tt lv (-1 # 1)%Q lw
+           Hl Hr Hnl Hnr Htl Htr Hlt Hrt Hadj Hdl Hdr Hlv A Hlw). right. reflexivity.
 Qed.
 
 (* ================================================================== part H *)
@@ -1220,11 +1276,11 @@ Lemma pm_data2_total n pm : pm_wellformed n pm ->
   exists du di, pm_data2 pm = inr (du, di) /\ length du = (n * n)%nat /\ length di = (n * n)%nat.
 Proof.
   intros [Ht [Hd Hc]]. unfold pm_data2. destruct (pm_err pm) as [codes|] eqn:Ee.
-  - specialize (Hc codes eq_refl). rewrite Hd, Hc, Nat.ltb_irrefl.
+  - specialize (Hc codes eq_refl). rewrite Hd, Hc, Ht, Nat.ltb_irrefl, Nat.eqb_refl. cbn [andb negb].
     destruct (with_codes_total (pm_times pm) (pm_dists pm) codes 0) as [du [di E]]; [lia|lia|].
     exists du, di. rewrite E. split; [reflexivity|].
     assert (pm_data2 pm = inr (du, di)) as Hd2.
-    { unfold pm_data2. rewrite Ee, Hd, Hc, Nat.ltb_irrefl, E. reflexivity. }
+    { unfold pm_data2. rewrite Ee, Hd, Hc, Ht, Nat.ltb_irrefl, Nat.eqb_refl. cbn [andb negb]. rewrite E. reflexivity. }
     destruct (pm_data2_codes_cover pm codes du di Ee Hd2) as [_ [A B]]. split; congruence.
   - eexists; eexists. split; [reflexivity|]. rewrite !map_length. split; assumption.
 Qed.
@@ -1469,9 +1525,9 @@ Proof.
 Qed.
 
 Theorem doc_accepted_consistent d prov vs :
-  doc_read d = DOk prov vs -> codes_fit d -> names_known_or_absent d -> doc_consistent d.
+  doc_read d = DOk prov vs -> names_known_or_absent d -> doc_consistent d.
 Proof.
-  intros H Hcf Hkn. destruct (doc_read_ok _ _ _ H) as [Hval [Ht _]].
+  intros H Hkn. destruct (doc_read_ok _ _ _ H) as [Hval [Ht _]].
   destruct (validate_nil _ Hval) as [E0 [E1 [E2 [E3 [E4 E5]]]]].
   destruct (doc_transport_ok _ _ _ Ht) as [data [Hc [Hb [Hdc [Hlen Hor]]]]].
   set (names := prof_names d) in *. set (pms := d_matrices d) in *.
@@ -1489,7 +1545,7 @@ Proof.
     destruct (build_ok_square _ _ Hb m Hm) as [L1 L2]. fold n in L1, L2.
     destruct (pm_err pm) as [codes|] eqn:Ee.
     - destruct (pm_data2_codes_cover pm codes _ _ Ee Hd) as [_ [A B]].
-      destruct (Hcf pm codes Hpm Ee) as [C1 C2]. split; [congruence|]. split; [congruence|].
+      destruct (pm_data2_codes_fit pm codes _ _ Ee Hd) as [C1 C2]. split; [congruence|]. split; [congruence|].
       intros c Hc'. inversion Hc'; subst. congruence.
     - unfold pm_data2 in Hd. rewrite Ee in Hd. inversion Hd as [[A B]]. rewrite <- A in L1. rewrite <- B in L2.
       rewrite map_length in L1, L2. split; [exact L1|]. split; [exact L2|]. intros c Hc'. congruence. }
@@ -1682,7 +1738,7 @@ Definition hav_BA : Q := 2496392222597971968 # 1099511627776.
 Definition hav_witness (a b : nat) : Q :=
   if (a =? b)%nat then 0%Q else if (a <? b)%nat then hav_AB else hav_BA.
 
-Theorem approx_symmetric_last_bit_refuted :
+Theorem approx_symmetric_last_bit_prefix_refuted :
   exists (hav : nat -> nat -> Q) (a b : nat),
     (forall x y, (0 <= hav x y)%Q) /\ (forall x, (hav x x == 0)%Q) /\
     (hav b a - hav a b == 1 # 2147483648)%Q /\
@@ -1695,3 +1751,39 @@ Proof.
   { intros x. unfold hav_witness. rewrite Nat.eqb_refl. reflexivity. }
   split; [vm_compute; reflexivity|]. split; vm_compute; reflexivity.
 Qed.
+
+(* ================================================================== the structure of get_haversine_distance is symmetric (repair d74b2b6) *)
+(* only laws that binary64 arithmetic and an odd sine / even cosine have: commutative (NOT associative) multiplication, sign
+   rules of subtraction, multiplication and division *)
+Section HaversineStructureP.
+  Variable F : Type.
+  Variables (fadd fsub fmul fdiv : F -> F -> F) (fneg fsin fcos fsqrt : F -> F) (fatan2 : F -> F -> F).
+  Variables (one two pi c180 wa wb : F).
+  Hypothesis mul_comm : forall a b, fmul a b = fmul b a.
+  Hypothesis sub_anti : forall a b, fsub a b = fneg (fsub b a).
+  Hypothesis mul_neg_r : forall a b, fmul a (fneg b) = fneg (fmul a b).
+  Hypothesis mul_neg_neg : forall a b, fmul (fneg a) (fneg b) = fmul a b.
+  Hypothesis div_neg_l : forall a b, fdiv (fneg a) b = fneg (fdiv a b).
+  Hypothesis sin_odd : forall a, fsin (fneg a) = fneg (fsin a).
+  Hypothesis cos_even : forall a, fcos (fneg a) = fcos a.
+
+  Let hav := haversine F fadd fsub fmul fdiv fsin fcos fsqrt fatan2 one two pi c180 wa wb.
+
+  Lemma deg_rad_neg x : deg_rad F fmul fdiv pi c180 (fneg x) = fneg (deg_rad F fmul fdiv pi c180 x).
+  Proof. unfold deg_rad. rewrite mul_neg_r, div_neg_l. reflexivity. Qed.
+
+  Lemma wgs84_radius_neg x :
+    wgs84_radius F fadd fmul fdiv fsin fcos fsqrt wa wb (fneg x) = wgs84_radius F fadd fmul fdiv fsin fcos fsqrt wa wb x.
+  Proof.
+    unfold wgs84_radius. cbv zeta. rewrite cos_even, sin_odd, (mul_neg_r (fmul wb wb)), (mul_neg_r wb), !mul_neg_neg.
+    reflexivity.
+  Qed.
+
+  Theorem haversine_fixed_symmetric p1 p2 : hav true p1 p2 = hav true p2 p1.
+  Proof.
+    unfold hav, haversine. cbv zeta.
+    rewrite (sub_anti (fst p1) (fst p2)), (sub_anti (snd p1) (snd p2)).
+    rewrite !deg_rad_neg, !div_neg_l, !sin_odd, !mul_neg_neg, wgs84_radius_neg.
+    rewrite (mul_comm (fcos (deg_rad F fmul fdiv pi c180 (fst p1)))). reflexivity.
+  Qed.
+End HaversineStructureP.
